@@ -8,6 +8,14 @@ from concurrent.futures import ThreadPoolExecutor
 from lib import common as C
 
 LEVEL = "model_checking"
+MANIFEST = dict(
+    cat="model_checking", design="5/C20",
+    text="Kmer.tla is model-checked exhaustively (k<=4 quick, k<=5 thorough; all sequences over {A,C,G,T,N} of length k+3): "
+         "registers are a function of the history alone, canonical/direction/restart laws hold. Every maximal behaviour of the "
+         "model is replayed on the real Kmer objects with the projected state compared after each step, and recorded executions "
+         "for every k in 1..32 (random long sequences; all 4^k windows for small k) are validated by TLC against Trace_Kmer.",
+    note="Trusted: TLC, the harness projection u64 -> symbol sequence (+ low-bits-zero flag). Exhaustive only within the stated bounds; k>5 by sampled traces.",
+    technique="TLA+ spec (Kmer.tla) + TLC exhaustive MC; TLC-generated behaviours replayed on the real code; recorded traces validated by TLC (Trace_Kmer.tla)")
 
 
 def run(ctx):
